@@ -185,4 +185,38 @@ def check_bins_semantics(repo, chk):
             if why:
                 chk.violation("B-sem", ms.key, "axis-split:%s" % "x".join(map(str, sizes)), "multi_split_bound(n=%s): %s" % (sizes, why), file=AB, line=ms.lineno)
         decided.add(ms.key)
+        # nested split groups: loop_split_bound refines every box of the previous group within that box
+        ls = cls.methods.get("loop_split_bound")
+        if ls is not None:
+            for groups in ([[2, 1], [1, 2]], [[2, 2], [3, 1]], [[1, 2]]):
+                del seen[:]
+                base = (np.array([R(0), R(0)], dtype=object), np.array([R(10), R(10)], dtype=object))
+                try:
+                    out = Translator(repo, hooks={"numeric_call_first": _first, ss.key: splitter}, max_depth=4).call_fn(ls, [datas.copy(), [[sp.Integer(x) for x in g] for g in groups]], {"base_bound": base})
+                except Unmodelled as e:
+                    raise AnalysisError("AdaptiveBound.loop_split_bound cannot be interpreted: %s" % e)
+                level = [(((R(0), R(0)), (R(10), R(10))), list(pts))]
+                for g in groups:
+                    nxt_ = []
+                    for bx_, sub_ in level:
+                        nxt_.extend(ref(sub_, bx_, g))
+                    level = nxt_
+                wantn = [(bx, sorted(sub)) for bx, sub in level]
+                why = None
+                if not (isinstance(out, tuple) and len(out) == 2 and len(out[0]) == len(wantn) == len(out[1])):
+                    why = "returns %s boxes, expected %d" % (len(out[0]) if isinstance(out, tuple) and len(out) == 2 else "?", len(wantn))
+                else:
+                    got = []
+                    for bx, dat in zip(out[0], out[1]):
+                        l_, r_ = bx
+                        dat = np.asarray(dat, dtype=object)
+                        got.append(((tuple(sp.sympify(x) for x in np.asarray(l_, dtype=object).reshape(-1)), tuple(sp.sympify(x) for x in np.asarray(r_, dtype=object).reshape(-1))),
+                                    sorted(zip(dat[0].tolist(), dat[1].tolist())) if dat.ndim == 2 and dat.shape[0] == 2 else None))
+                    if sorted(got, key=str) != sorted(wantn, key=str):
+                        badb = [g_ for g_ in got if g_ not in wantn]
+                        why = "the boxes are not the refinement of each previous box within that box (they overlap / leave gaps), e.g. got %s" % (badb[:1] or got[:1],)
+                chk.oblige("B-sem", "loop_split_bound(13 events, n=%s): each group of splits refines every box of the previous group inside that box" % (groups,), why is None)
+                if why:
+                    chk.violation("B-sem", ls.key, "nested:%s" % "/".join("x".join(map(str, g)) for g in groups), "loop_split_bound(n=%s): %s" % (groups, why), file=AB, line=ls.lineno)
+            decided.add(ls.key)
     return decided
